@@ -44,6 +44,7 @@ type termProfile struct {
 	hadT    map[string]bool      // nodeclaim name -> a termination deadline annotation has existed
 	evicted map[types.UID]bool
 	podUnk  map[types.UID]bool
+	podEnqT map[types.UID]*time.Time // the deadline of the (attributed) drain pass that enqueued the pod: the stored one is never later
 	podMinT map[types.UID]*time.Time // earliest deadline the pod has been queued under since it was (re-)enqueued
 }
 
@@ -67,6 +68,7 @@ func (p *termProfile) build() {
 	p.wasIn = map[types.UID]bool{}
 	p.podMinT = map[types.UID]*time.Time{}
 	p.podUnk = map[types.UID]bool{}
+	p.podEnqT = map[types.UID]*time.Time{}
 	p.s.Mgr.Resync()
 }
 
@@ -531,6 +533,7 @@ func (p *termProfile) onEnqueued(pod *corev1.Pod) {
 	t := s.LastRun
 	s.Probe("evq-enqueue")
 	delete(p.podMinT, pod.UID)
+	delete(p.podEnqT, pod.UID)
 	// until the enqueue is attributed to a drain pass (and its deadline known) no later pass may stand in for it
 	p.podUnk[pod.UID] = true
 	if t == nil || t.Ctrl.Name != "node.termination" {
@@ -565,6 +568,7 @@ func (p *termProfile) onEnqueued(pod *corev1.Pod) {
 		return
 	}
 	p.podMinT[pod.UID] = T
+	p.podEnqT[pod.UID] = T
 	delete(p.podUnk, pod.UID)
 	if pastDeadline(pod, T, now) || pastDeadline(pod, T, t.Start) {
 		s.Probe("evq-enqueue-forced")
@@ -884,6 +888,12 @@ func (p *termProfile) checkEvictionTask(t *Task) {
 			s.Probe("evict")
 			if w.Err == nil {
 				p.evicted[pod.UID] = true
+			}
+			// "a pod queued under one deadline is never later handled under a later one": the queue keeps the earliest
+			// deadline, so once the pod's grace no longer fits before the deadline it was enqueued under, the queue deletes
+			// it directly; an eviction attempt decided after that instant means a later (or no) deadline was applied
+			if T0 := p.podEnqT[pod.UID]; T0 != nil && p.wasIn[pod.UID] && pod.DeletionTimestamp == nil && pastDeadline(pod, T0, t.Start) {
+				s.Violate("C10", "handled-under-later-deadline", "pod %s was enqueued under node deadline %s; at %s its grace period no longer fits before that deadline, yet the eviction queue still tried to evict it instead of deleting it", pod.Name, T0.Format(time.RFC3339), t.Start.Format(time.RFC3339))
 			}
 			if dndActive(pod, at) {
 				s.Violate("C10", "evicted-do-not-disrupt", "pod %s evicted although the version the queue read carries an active do-not-disrupt annotation (%q)", pod.Name, pod.Annotations[v1.DoNotDisruptAnnotationKey])
